@@ -441,7 +441,26 @@ class MetaSuite(WorldSuite):
                 ("search:exh stride 4", ["--gen", "exh", "--count", "4", "--seed", s], {})]
 
 
-SUITES = {"plan": PlanSuite(), "exec": ExecSuite(), "world": WorldSuite(), "sysdata": SysdataSuite(), "meta": MetaSuite()}
+class ParseqSuite(PipeSuite):
+    name = "parseq"
+
+    def gens(self, tier, seed, sspec):
+        s = str(seed)
+        if tier == "quick":
+            return [("all tree shapes with <= 4 leaves x 2 access patterns", ["--gen", "exh", "--count", "2", "--seed", s], {}),
+                    ("random conflict-free trees (depth<=5, fan-out<=6; pools 1,2,4,16; free/overlap/jitter; inside/outside the pool)", ["--gen", "random", "--count", "40", "--seed", s], {}),
+                    ("random trees with conflicting leaves (debug check)", ["--gen", "conflicts", "--count", "60", "--seed", s], {})]
+        if tier == "thorough":
+            return [("all tree shapes with <= 4 leaves x 40 access patterns", ["--gen", "exh", "--count", "40", "--seed", s], {}),
+                    ("random conflict-free trees", ["--gen", "random", "--count", "1500", "--seed", s], {}),
+                    ("random trees with conflicting leaves (debug check)", ["--gen", "conflicts", "--count", "2500", "--seed", s], {})]
+        return [("search:exh x 8 patterns", ["--gen", "exh", "--count", "8", "--seed", s], {}),
+                ("search:random", ["--gen", "random", "--count", "300", "--seed", s], {}),
+                ("search:conflicts", ["--gen", "conflicts", "--count", "600", "--seed", s], {})]
+
+
+SUITES = {"plan": PlanSuite(), "exec": ExecSuite(), "world": WorldSuite(), "sysdata": SysdataSuite(), "meta": MetaSuite(),
+          "parseq": ParseqSuite()}
 
 
 # ----------------------------------------------------------------------------------------
